@@ -191,17 +191,14 @@ void mzd_row_add(mzd_t *M, rci_t sourcerow, rci_t destrow) {
 
 void mzd_row_clear_offset(mzd_t *M, rci_t row, rci_t coloffset) {
   wi_t const startblock = coloffset / m4ri_radix;
-  word temp;
+  wi_t const last       = M->width - 1;
   word *truerow = mzd_row(M, row);
-  /* make sure to start clearing at coloffset */
-  if (coloffset % m4ri_radix) {
-    temp = truerow[startblock];
-    temp &= __M4RI_RIGHT_BITMASK(m4ri_radix - coloffset);
-  } else {
-    temp = 0;
-  }
-  truerow[startblock] = temp;
-  for (wi_t i = startblock + 1; i < M->width; ++i) { truerow[i] = 0; }
+  /* keep the columns before coloffset; never touch the bits beyond the last column */
+  word keep = (coloffset % m4ri_radix) ? __M4RI_LEFT_BITMASK(coloffset % m4ri_radix) : 0;
+  if (startblock == last) { keep |= ~M->high_bitmask; }
+  truerow[startblock] &= keep;
+  for (wi_t i = startblock + 1; i < last; ++i) { truerow[i] = 0; }
+  if (startblock < last) { truerow[last] &= ~M->high_bitmask; }
 
   __M4RI_DD_ROW(M, row);
 }
